@@ -80,6 +80,10 @@ rule("receiver_estimated_maximum_bitrate.go", [207], OUT, "accepting a REMB whos
 rule("sender_report.go", [219], EQ_DEAD, "the loop above reads exactly h.Count reports or fails")
 rule("util.go", [17], ERRVAL, "value returned with errInvalidSizeOrStartIndex")
 
+rule("receiver_report.go", [78], EQ_GUARD, "65536+k report blocks pass the narrowed count check but exceed the packet size limit checked next", op="len16")
+rule("sender_report.go", [121], EQ_GUARD, "65536+k report blocks pass the narrowed count check but exceed the packet size limit checked next", op="len16")
+rule("source_description.go", [116], EQ_GUARD, "65536+k chunks pass the narrowed count check but exceed the packet size limit checked before", op="len16")
+
 def classify(r):
     f, ln, op, orig = r["file"], r["line"], r["op"], r["orig"]
     if r["status"] == "uncovered":
